@@ -8,6 +8,8 @@ def classify(rej):
     ev = rej["line"]
     if ev["e"] in ("Eq", "Hash", "Ord", "Clone"):
         return "%s-%s%s" % (ev["e"].lower(), ev.get("ty"), ("-" + ev["cls"]) if ev.get("cls") and ev["cls"] != "eq" else "")
+    if ev["e"] == "EqAlias":
+        return "eq-alias-%s" % ev.get("ty")
     if ev["e"] == "Sort":
         return "sort-" + ev["impl"]
     if ev["e"] == "Timeout":
